@@ -279,6 +279,9 @@ func StatementProcessor(gs *gripql.GraphStatement, db gdbi.GraphInterface, ps *p
 		if ps.LastType == gdbi.NoData {
 			return nil, fmt.Errorf(`"mark" statement is not valid at the beginning of a traversal`)
 		}
+		if ps.LastType != gdbi.VertexData && ps.LastType != gdbi.EdgeData {
+			return nil, fmt.Errorf(`"mark" statement is only valid for edge or vertex types not: %s`, ps.LastType.String())
+		}
 		if stmt.As == "" {
 			return nil, fmt.Errorf(`"mark" statement cannot have an empty name`)
 		}
